@@ -1566,8 +1566,12 @@ func (env *LEnv) funCall(ctx context.Context, fun, args *LVal) *LVal {
 	// checking.  But push FID onto the stack before popping to simplify
 	// book-keeping.  When a debugger is attached, TRO is disabled globally
 	// to provide predictable stepping and stack traces.
+	// Only calls of lisp functions are collapsed.  A builtin would be run again
+	// by the frame it collapses into, in THAT frame's context: (funcall 'h)
+	// made in the tail of a function of package b, collapsed into a funcall
+	// frame made in package a, looked h up in a.
 	npop := 0
-	if env.Runtime.Debugger == nil {
+	if env.Runtime.Debugger == nil && fun.Builtin() == nil {
 		npop = env.Runtime.Stack.TerminalFID(fun.FID())
 	}
 
